@@ -187,6 +187,8 @@ def check_factorisation(task, a, ar, res, what):
         ua, va = ar["Uaxis"] % (k0 + 1), ar["Vaxis"] % (k1 + 1)
         leg_check(U, ua, sgn, "connecting leg of U")
         leg_check(Vh, va, -sgn, "connecting leg of V")
+        charge_check(U, a.n if ar.get("nU", True) else zero, "U")
+        charge_check(Vh, zero if ar.get("nU", True) else a.n, "V")
         U0 = U.moveaxis(source=ua, destination=-1)
         V0 = Vh.moveaxis(source=va, destination=0)
         cond = max(1.0, float(U0.norm()) * float(V0.norm()))
@@ -197,8 +199,10 @@ def check_factorisation(task, a, ar, res, what):
         Vu, Uu = e1.unfuse_all(V0), e1.unfuse_all(U0)
         if Vu.ndim != Uu.ndim:
             raise V(PROP, "factor-legs", "%s: U has %d and V has %d elementary legs" % (what, Uu.ndim, Vu.ndim))
-        E = yastn.tensordot(Vu, Uu, axes=(tuple(range(1, Vu.ndim)), tuple(range(Uu.ndim - 1))))
-        close(E, _eye_like(E), "VU-biorthonormal", "V U vs identity", scale=cond * 100)
+        if not any(a.n):
+            # (for a charged input V U carries the charge and cannot be the identity: only reconstruction, legs and charge placement are held)
+            E = yastn.tensordot(Vu, Uu, axes=(tuple(range(1, Vu.ndim)), tuple(range(Uu.ndim - 1))))
+            close(E, _eye_like(E), "VU-biorthonormal", "V U vs identity", scale=cond * 100)
         close(U0 @ S @ V0, ref, "reconstruction", "U S V vs permuted input", scale=cond * 100)
 
 
@@ -262,6 +266,13 @@ class OpFactorise(e1.Op):
                     "fuse_side": rng.choice(["rows", "cols", "both"])}
             if args["fuse"] == "hard":
                 args["fuse_side"] = "both"     # eig itself rejects differently hard-fused halves (leg structures must match)
+            if g.task.cfgspec["sym"] in ("Z2", "Z3") and rng.random() < 0.5:
+                # a CHARGED square tensor: one leg holding every group element with the same dimension, so that each block (t, t - n) is square;
+                # the caller chooses the factor that carries the charge (nU)
+                order = 2 if g.task.cfgspec["sym"] == "Z2" else 3
+                args.update({"specs": [], "charged": {"D": rng.randint(1, 3), "n": [rng.randrange(1, order)], "order": order}, "nU": rng.random() < 0.5,
+                             "fuse": None, "Uaxis": rng.randint(-2, 1), "Vaxis": rng.randint(-2, 1)})
+                k = 1
             kr = k - 1 if (args["fuse"] and args["fuse_side"] in ("rows", "both")) else k
             kc = k - 1 if (args["fuse"] and args["fuse_side"] in ("cols", "both")) else k
             args["axes"] = [list(range(kr)), list(range(kr, kr + kc))]
@@ -281,6 +292,10 @@ class OpFactorise(e1.Op):
     def _input(self, ins, ar, task=None):
         if ar["kind"] in ("svd", "qr"):
             return ins[0]
+        if ar["kind"] == "eig" and ar.get("charged"):
+            ch = ar["charged"]
+            leg = yastn.Leg(task.cfg, s=1, t=[(q,) for q in range(ch["order"])], D=[ch["D"]] * ch["order"])
+            return _relazy(yastn.rand(task.cfg, legs=[leg, leg.conj()], n=tuple(ch["n"]), dtype=ar["dtype"]), ar)
         if ar["kind"] == "eig":
             legs = [e1._yleg(task, sp) for sp in ar["specs"]]
             G = yastn.rand(task.cfg, legs=legs + [l.conj() for l in legs], dtype=ar["dtype"])
